@@ -187,7 +187,9 @@ def trace_real_frames(ctx, per, idx=None, salt=0):
               "Offers": "{}", "Targets": "{}", "SReadSizes": "{}", "MaxSteps": 1000000, "MaxBlock": 131072, "Dev_F9": "FALSE", "ResetMode": '"any"'}
     invs = ["Order", "Retain", "ConsumedOK", "NoFinishOnPrefix", "FinishedContent", "Bounded05"]
     write_cfg(cfg, spec="TSpec", constants=consts, invariants=invs, postcondition="Accepted")
-    ok, info, res = trace_validate(ctx, mod, cfg, trace, "tv_frame_decoder", heap="-Xmx8g")
+    # a "new" event puts the specification into its initial condition whatever came before: long traces are validated in pieces
+    # cut there (one TLC run over 120 000 events took more than half an hour, pieces of 20 000 take a minute each)
+    ok, info, res = trace_validate_chunked(ctx, mod, cfg, trace, "tv_frame_decoder", lambda r: r.get("ev") == "new", max_events=20000, heap="-Xmx8g")
     ctx.traces += rj["runs"]
     ctx.evaluations += rj["events"]
     cov = {k: rj[k] for k in ("frames", "skipped_frames", "runs", "events", "modes", "truncated_runs", "runs_on_a_reused_decoder")}
@@ -213,8 +215,9 @@ def trace_real_frames(ctx, per, idx=None, salt=0):
     cand = [i for i, r in enumerate(recs) if r.get("consumed", -1) > 0 and r["ev"] in ("decode", "sread", "from_to") and i > len(recs) // 3]
     if ok and cand:
         k = cand[0]
-        recs2 = [dict(r) for r in recs[:k + 1]]
-        recs2[k]["consumed"] += 1
+        j = max([i for i in range(max(0, k - 20000), k + 1) if recs[i]["ev"] == "new"] or [0]) if len(recs) > 20000 else 0
+        recs2 = [dict(r) for r in recs[j:k + 1]]
+        recs2[-1]["consumed"] += 1
         t2 = ctx.path("fd_trace_corrupt.ndjson")
         write_ndjson(t2, recs2)
         ok2, info2, _ = trace_validate(ctx, mod, cfg, t2, "tv_frame_decoder_selftest", heap="-Xmx8g")
